@@ -62,6 +62,23 @@ Proof.
 Qed.
 Print Assumptions divergence_stops_the_loop.
 
+(* 2m. multi-energy time series: with coupling controllers that read input cells of one net and write input
+   cells of another (no chains within a step, profiles do not drive derived cells), for every list of steps the
+   row logged for t is the stand-alone calculation of the member nets on  couple (U_0[cells := row t]) *)
+Theorem multinet_step_equals_standalone :
+  forall (C V R : Type) (ceqb : C -> C -> bool), (forall a b, ceqb a b = true <-> a = b) ->
+  forall (spec : desc C V -> option R), (forall u u', (forall c, u c = u' c) -> spec u = spec u') ->
+  forall (cells derived reads : list C) (couple : desc C V -> desc C V) profile,
+    (forall u c, ~ In c derived -> couple u c = u c) ->
+    (forall u u' c, (forall r, In r reads -> u r = u' r) -> In c derived -> couple u c = couple u' c) ->
+    (forall c, In c reads -> ~ In c derived) ->
+    (forall c, In c cells -> ~ In c derived) ->
+  forall cod steps u0 t r,
+    In (t, r) (logged C V R (mloop C V R ceqb spec cells couple profile cod steps u0 [])) ->
+    r = spec (mstep C V ceqb cells couple profile t u0).
+Proof. intros. eapply multinet_step_lemma; eauto. Qed.
+Print Assumptions multinet_step_equals_standalone.
+
 (* 4. the loops register pipeflow as run function, PipeflowNotConverged is the first recognised error
    (the one re-raised), the multinet twins take both from the pandapipes set-up, and run_loop hands every
    step once and in order to pandapower's run_time_step *)
@@ -80,6 +97,7 @@ Theorem registered_run_and_errors :
   wget "multinet.ctrl.per_pandapipes_net" wiring = "pandapipes.control.run_control.prepare_run_ctrl" /\
   wget "multinet.ctrl.run_default_from_net_type" wiring = "yes" /\
   wget "multinet.ctrl.errors_default_from_net_type" wiring = "yes" /\
+  wget "multinet.ctrl.relevant_nets" wiring = "all-nets-named-by-the-controllers" /\
   wget "multinet.ts.prepare" wiring = "pandapipes.multinet.control.run_control_multinet.prepare_run_ctrl" /\
   wget "multinet.ts.run_loop_origin" wiring = "pandapipes.timeseries.run_time_series.run_loop".
 Proof. vm_compute. repeat split; reflexivity. Qed.
